@@ -115,6 +115,9 @@ def _size(n):
     return 1
 
 
+_ISO_CACHE = {}
+
+
 def isolate(code, S, V, env, prop):
     """Find the executed instruction that violates the contract of `prop` when run alone on the operands the
     reference run gave it.  -> dict(code, S, V, finding) or None."""
@@ -137,16 +140,29 @@ def isolate(code, S, V, env, prop):
         steps.append((ins, Ss, Vs))
     simple = [x for x in steps if x[0][1] not in R.CONTROL]
     ctrl = sorted([x for x in steps if x[0][1] in R.CONTROL], key=lambda x: _size(x[0]))
+    envk = tuple(sorted((env or {}).items()))
     for ins, Ss, Vs in (simple + ctrl)[:400]:
         sub = [R.thaw(ins)]
         try:
-            fs, ref, real = findings_for(sub, Ss, Vs, env)
-        except (R.RefError, E.Timeout):
+            key = (ins, Ss, Vs, envk)
+            hash(key)
+        except TypeError:
+            key = None
+        if key is not None and key in _ISO_CACHE:
+            fs = _ISO_CACHE[key]
+        else:
+            try:
+                fs, ref, real = findings_for(sub, Ss, Vs, env)
+            except E.Timeout:
+                continue
+            except Exception:  # noqa   no oracle, or these operands cannot be fed to the real interpreter (e.g. applied lambda)
+                fs = None
+            if fs is not None and any(f[1] == 'requires.input_accepted' for f in fs):
+                fs = None                     # these operands cannot be handed to the real interpreter as literals
+            if key is not None and len(_ISO_CACHE) < 200000:
+                _ISO_CACHE[key] = fs
+        if not fs:
             continue
-        except Exception:  # noqa   harness could not feed these operands to the real interpreter (e.g. applied lambda)
-            continue
-        if any(f[1] == 'requires.input_accepted' for f in fs):
-            continue                      # these operands cannot be handed to the real interpreter as literals
         fs = [f for f in fs if f[0] == prop]
         if fs:
             return dict(code=sub, S=Ss, V=Vs, finding=fs[0], ins=ins)
